@@ -44,6 +44,20 @@ for d in sorted(glob.glob(str(V / "seeded" / "*" / "meta.json"))):
             det.append(f"~~{c}~~ rc={v['rc']}")
     summ = re.sub(r"\s+", " ", (mm.get("summary", "") + " — needs: " + mm.get("needs", "")))[:330]
     out.append(f"| {sid} | {summ} | {le.get('demo_clean_rc')}→{le.get('demo_patched_rc')} | {', '.join(det)} | {', '.join(k for k in kinds if k)} |")
+out.append("\n### 10.3b Behaviour-preserving refactors (independent agents; every property still holds) and which checks alarm on them\n")
+out.append("A check that alarms here raises a false alarm, or — when it ends in no-failing-input-found — does what the brief prescribes for a "
+           "proof obligation / translator shape it can no longer follow (\"it still reports the violation\"). The table is the state after the "
+           "translators were made more tolerant (behavioural extraction instead of AST shape where that was cheap); `tools/neutraltest.py` re-runs it.\n")
+out.append("| refactor | what it changes | checks run | alarms |")
+out.append("|---|---|---|---|")
+for d in sorted(glob.glob(str(V / "neutral" / "*" / "meta.json"))):
+    mm = json.load(open(d)); nid = Path(d).parent.name; le = mm.get("lead_evaluation", {})
+    if not le.get("patch_applies"):
+        out.append(f"| {nid} | {re.sub(chr(10), ' ', str(mm.get('summary', '')))[:200]} | patch no longer applies on HEAD {le.get('repo_head')} | - |")
+        continue
+    al = [f"{c} ({v.get('replay_kind') or 'rc ' + str(v['rc'])})" for c, v in le.get("checks", {}).items() if v["rc"] != 0]
+    summ = re.sub(r"\s+", " ", str(mm.get("summary", mm.get("what", ""))))[:260]
+    out.append(f"| {nid} | {summ} | {len(le.get('checks', {}))} | {', '.join(al) or 'none'} |")
 txt = "\n".join(out) + "\n"
 d = (V / "DESIGN.md").read_text()
 if "<!-- AUTO:BEGIN -->" in d:
